@@ -50,7 +50,14 @@ def jobs(tier):
         add(side="dec", k=1, L=4, n=2, fast=False, table=True)
         add(side="dec", k=1, L=4, n=2, fast=True, table=False)
         add(side="dec", k=1, L=4, n=2, fast=True, table=True)
+        # walks with MORE information digits than requested bits (top digits zero, value still fits)
+        add(side="dec", k=1, L=1, n=2, fast=False, table=False)
+        add(side="dec", k=1, L=2, n=3, fast=False, table=False)
     else:
+        add(side="dec", k=1, L=1, n=2, fast=False, table=False)
+        add(side="dec", k=1, L=2, n=3, fast=False, table=True)
+        add(side="dec", k=1, L=1, n=3, fast=False, table=False)
+        add(side="dec", k=2, L=1, n=2, fast=False, table=False)
         for L in (1, 2, 3, 4, 5):
             add(side="enc", k=1, L=L, fast=False, table=False, vt=0, max_steps=L + 2)
             add(side="enc", k=1, L=L, fast=True, table=False, vt=0, max_steps=L + 2)
